@@ -8,16 +8,84 @@ against the decision tree of the walk of the model graph (Spec.CfgSpec.walk_tree
 Oracle (violation search only; the theorem is the claim): the structured
 semantics of the source skeleton (Spec.CfgSpec.trace_tree, extracted) under every
 decision list up to a bound must be a prefix of the real walk under the same
-decisions, and equal to it when no `return` is executed."""
+decisions, and equal to it when no `return` is executed.
+
+Compound assignments (last sentence of the property): the programs are rendered
+with EVERY compound assignment of ParseSubstitution (`+= -= *= **= /= \\= %= <<=
+>>= &= |= ^=`, `++`, `--`) on scalars and on array elements, as statements and in
+`for` headers (lifteng.Render.rich_leaf).  The harness prints each lifted
+assignment in a canonical prefix form (target, operator, operands in order); it
+must equal the plain assignment `x[..] = x[..] op e` given by the specification
+(Spec.SurfaceSpec.expected_statement, extracted; proved to mean the compound
+assignment under every interpretation of the operators) - failing input
+otherwise - and the mirror Model.Shortcuts.parse_substitution (correspondence)."""
+import json
+import os
+
 import common
 import lifteng
-from props import C12
+
+
+def corpus_cases():
+    """corpus/C13/*.json: {"body": skeleton[, "rich": salt]}; a body without salt is
+    run in the C12 rendering and with salt 0."""
+    d = os.path.join(common.VERIF, "corpus", "C13")
+    out = []
+    if os.path.isdir(d):
+        for f in sorted(os.listdir(d)):
+            if f.endswith(".json"):
+                rec = json.load(open(os.path.join(d, f)))
+                body = lifteng.from_jsonable(rec["body"])
+                salts = [rec["rich"]] if "rich" in rec else [None, 0]
+                for salt in salts:
+                    c = lifteng.make_case(body, rich=salt)
+                    c["corpus"] = f
+                    out.append(c)
+    return out
+
+
+def gen_cases(ctx, quick_nodes, thorough_nodes, n_random_quick, n_random_thorough):
+    """Every body up to the node bound and seeded random bodies, each rendered
+    with its own salt (which compound assignment stands at which leaf)."""
+    quick = ctx.tier == "quick"
+    max_nodes = quick_nodes if quick else thorough_nodes
+    cases = [lifteng.make_case(b, rich=ctx.rng.randrange(1 << 30)) for b in lifteng.bodies(max_nodes)]
+    n_exh = len(cases)
+    sizes = {}
+    for _ in range(n_random_quick if quick else n_random_thorough):
+        b = lifteng.rand_body(ctx.rng, 60, 12)
+        sizes[lifteng.size(b) // 10 * 10] = sizes.get(lifteng.size(b) // 10 * 10, 0) + 1
+        cases.append(lifteng.make_case(b, rich=ctx.rng.randrange(1 << 30)))
+    return cases, n_exh, max_nodes, sizes
+
+
+def form_kind(sx, where):
+    """'(Op Sub (V q7 (V x)) ..)' -> 'Sub=/array1/statement'"""
+    parts = sx[1:].split(" ", 2)
+    head = parts[0] if parts[0] != "Op" else parts[1] + "="
+    target = sx[sx.index("(V "):]
+    depth, n_idx = 0, 0
+    for ch in target:
+        if ch == "(":
+            depth += 1
+            if depth == 2:
+                n_idx += 1
+        elif ch == ")":
+            depth -= 1
+            if depth == 0:
+                break
+    return "%s/%s/%s" % (head, "scalar" if n_idx == 0 else "array%d" % n_idx, where)
+
+
+def failing_record(case, bound, impl, spec):
+    return {"input": case["src"], "body": lifteng.to_jsonable(case["body"]), "rich": case.get("rich"),
+            "bound": bound, "impl": impl, "spec": spec}
 
 
 def run(ctx, proofs):
     quick = ctx.tier == "quick"
-    corpus = C12.corpus_cases("C13")
-    cases, n_exh, max_nodes, sizes = C12.gen_cases(ctx, 7, 8, 1500, 15000)
+    corpus = corpus_cases()
+    cases, n_exh, max_nodes, sizes = gen_cases(ctx, 7, 8, 1500, 15000)
     bound_small, bound_big = (6, 7) if quick else (7, 9)
     small = corpus + cases[:n_exh]
     big = cases[n_exh:]
@@ -34,8 +102,8 @@ def run(ctx, proofs):
     for part, bound in ((small, bound_small), (big, bound_big)):
         for case, impl, model in lifteng.run_walk(common, part, bound):
             if not (impl.startswith("W ") and model.startswith("T ") and " # W " in model):
-                failing.append({"input": case["src"], "body": lifteng.to_jsonable(case["body"]), "bound": bound,
-                                "impl": impl[:500], "spec": "the definition parses and lifts (model: %s)" % model[:200]})
+                failing.append(failing_record(case, bound, impl[:500],
+                                              "the definition parses and lifts (model: %s)" % model[:200]))
                 continue
             t_text, w_model = model[2:].split(" # W ", 1)
             if w_model != impl[2:]:
@@ -46,14 +114,28 @@ def run(ctx, proofs):
             returned += sum(1 for t in ttree if t[2] == 'R')
             bad = lifteng.containment_failures(ttree, wtree)
             if bad:
-                failing.append({"input": case["src"], "body": lifteng.to_jsonable(case["body"]), "bound": bound,
-                                "impl": impl[:3000], "spec": bad[:3]})
+                failing.append(failing_record(case, bound, impl[:3000], bad[:3]))
             if len(ttree) > 1:
                 nontrivial.add(t_text)
             if len(samples) < 3 and len(ttree) > 3 and lifteng.size(case["body"]) >= 6:
                 samples.append({"src": case["src"], "trace_tree": t_text[:400], "walk_tree": impl[:400]})
+    # compound assignments: every lifted assignment against its expansion
+    form_failing, form_kinds, n_compound = [], {}, 0
+    for case, impl, model in lifteng.run_forms(common, [c for c in small + big if c.get("compound")]):
+        bad, dis = lifteng.forms_compare(case, impl, model)
+        if bad:
+            form_failing.append(failing_record(case, 0, impl[:3000], bad[:3]))
+        if dis:
+            disagreements.append({"src": case["src"], "sx": case["sx"], "impl": impl[:2000], "model": dis[:3]})
+        for text, sx, where in case["compound"].values():
+            k = form_kind(sx, where)
+            form_kinds[k] = form_kinds.get(k, 0) + 1
+            n_compound += 1
     for f in failing[:5]:
         ctx.violation("the walk of the control-flow graph does not contain the source execution: %s" % (f["spec"],), f)
+    for f in form_failing[:5]:
+        ctx.violation("a compound assignment is not lifted as its expansion: %s" % (f["spec"],), f)
+    failing = failing + form_failing
     if not failing:
         if disagreements:
             d = disagreements[0]
@@ -68,7 +150,7 @@ def run(ctx, proofs):
         "evaluations": lists_checked,
         "programs": len(small) + len(big),
         "distinct_nontrivial": len(nontrivial),
-        "rule": "every surface skeleton body with at most %d nodes (%d programs, exhaustive, incl. for loops, compound "
+        "rule": "every surface skeleton body with at most %d nodes (%d programs, exhaustive, incl. for loops, every compound "
                 "assignments, returns, bare bodies, empty blocks) under every decision list up to length %d, plus %d seeded random "
                 "bodies up to 60 nodes under every decision list up to length %d and %d corpus programs; an evaluation is one "
                 "(program, maximal decision list) pair of the structured semantics compared with the walk of the real graph; "
@@ -78,6 +160,12 @@ def run(ctx, proofs):
         "exhaustive_part": "all %d bodies with <= %d nodes x all decision lists of length <= %d" % (n_exh, max_nodes, bound_small),
         "decision_lists_ending_in_return": returned,
         "random_size_histogram": {str(k): v for k, v in sorted(sizes.items())},
+        "compound_assignments_checked": n_compound,
+        "compound_kinds_seen": len(form_kinds),
+        "compound_kinds_possible": 14 * 3 * 2,
+        "compound_kinds_rule": "operator (12 op= tokens, ++, --) x target (scalar, a[i], a[i][j]) x position (statement, for "
+                               "header); each lifted assignment compared, operands in order, with Spec.SurfaceSpec.expected_statement",
+        "compound_kinds_least_seen": sorted(form_kinds.items(), key=lambda kv: kv[1])[:3],
         "samples": [disagreements[0]] if disagreements else samples,
         "disagreements_model_vs_impl": len(disagreements),
         "spec_failures": len(failing),
@@ -90,8 +178,14 @@ def run(ctx, proofs):
     ctx.assumptions += [
         "the skeleton abstraction of C12 (lifting looks only at statement kinds); leaf statements and conditions are "
         "identified by the number literal rendered into them",
-        "the parser turns `for` and compound assignments into the expansions mirrored by Model.Lift.for_into_while / "
-        "assign_with_op_shortcut: observed by the correspondence on rendered `for` loops and `+=` statements",
+        "the parser turns `for` into the expansion mirrored by Model.Lift.for_into_while: observed by the correspondence "
+        "(block lists, walk trees) on rendered `for` loops; that this expansion has the meaning of the source `for` is "
+        "proved (C13_surface_semantics_is_expansion)",
+        "the parser turns every compound assignment into the plain assignment of Spec.SurfaceSpec.expected_statement "
+        "(= Model.Shortcuts.parse_substitution): observed on every rendered compound assignment (all 14 operators, scalar and "
+        "array-element targets, statement and for-header position), operand order included; that this assignment means the "
+        "compound one is proved (C13_compound_expansion_sem); the token -> opcode table used to render the operators "
+        "is lifteng.COMPOUND_OPS (trusted, 12 lines)",
         "the bounded enumeration of decision lists is only the violation search; the claim for all decision lists is the theorem",
     ]
 
@@ -101,15 +195,19 @@ def replay(ctx, rep):
     if not body:
         print("replay names a broken obligation, not an input:", rep.get("broken"))
         return 1
-    case = lifteng.make_case(lifteng.from_jsonable(body))
-    res = lifteng.run_walk(common, [case], int(rep.get("bound", 6)))
+    case = lifteng.make_case(lifteng.from_jsonable(body), rich=rep.get("rich"))
+    bad_forms = []
+    if case.get("compound"):
+        (_, fi, fm), = lifteng.run_forms(common, [case])
+        bad_forms, _ = lifteng.forms_compare(case, fi, fm)
+    res = lifteng.run_walk(common, [case], int(rep.get("bound") or 6))
     _, impl, model = res[0]
     print("source        :", case["src"])
     print("implementation:", impl[:3000])
     print("specification :", model.split(" # W ")[0][:3000])
     if impl.startswith("W ") and model.startswith("T "):
         bad = lifteng.containment_failures(lifteng.parse_tree(model[2:].split(" # W ")[0]), lifteng.parse_tree(impl[2:]))
-        for b in bad[:5]:
+        for b in (bad + bad_forms)[:5]:
             print("violated      :", b)
-        return 1 if bad else 0
+        return 1 if bad or bad_forms else 0
     return 1
